@@ -30,6 +30,7 @@ def outdir(pid, *sub):
 
 def run(cmd, timeout=None, env=None, cwd=None, stdin=None, check=False):
     e = dict(os.environ)
+    e.setdefault("ASAN_OPTIONS", "detect_leaks=0:abort_on_error=0:exitcode=66")
     if env:
         e.update(env)
     try:
@@ -268,7 +269,9 @@ def validate_trace(pid, module, trace_path, cfg=None, timeout=1800, extra_env=No
     if r.rc != 0:
         raise MachineryError("trace validation %s failed to run (rc %s):\n%s" % (module, r.rc, r.out[-3000:]))
     for m in _RE_REJ.finditer(r.out):
-        v.rejects.append({"line": int(m.group(1)), "rule": m.group(2), "detail": re.sub(r"\s+", " ", m.group(3))[:600]})
+        det = re.sub(r"\s+", " ", m.group(3))
+        mo = re.search(r'\bop \|-> "([^"]*)"', det)
+        v.rejects.append({"line": int(m.group(1)), "rule": m.group(2), "detail": det[:600], "op": mo.group(1) if mo else ""})
     m = _RE_CONS.search(r.out)
     if m:
         v.consumed = True
